@@ -1563,6 +1563,19 @@ func vfMultiPartQueries() []string {
 
 // vfExtraQueries: hand written texts for constructs the fixture corpora use rarely or not at all (S1, multiset check).
 var vfExtraQueries = []string{
+	// sort keys that END in a reserved word used as a property key, without an explicit direction
+	"match (n) return n order by n.desc",
+	"match (n) return n order by n.descending, n.asc, n.ascending",
+	"match (n) with n order by n.DESC return n order by n.Desc desc",
+	"match (n) return n.desc as desc order by desc",
+	// property keys that contain backticks, in map literal position and in lookup position
+	"return {```x```: 1}",
+	"match (n {```a```: 1, a: 2}) return n.```a```, n.a",
+	"return {````: 1, `` ``: 2}",
+	"match (n) where n.```k``` = {```k```: n.```k```} return n",
+	// a leading * with further projection items
+	"match (n) return *, n.a as a",
+	"match (n) with *, n.b as b return *, b",
 	// nested property paths in updating positions (oC_PropertyExpression allows any number of lookups)
 	"match (n) set n.a.b = 1 return n",
 	"match (n) set n.a.b.c += {x: 1} return n",
